@@ -636,6 +636,10 @@ impl Task {
                 }
 
                 self.proc.set_data(&ctx.vars());
+                // the root task holds the process vars: store the change
+                if let Some(root) = self.proc.root() {
+                    ctx.runtime.cache().upsert(&root)?;
+                }
             }
         };
 
